@@ -251,8 +251,18 @@ func panicString(r interface{}) string {
 	// keep the frames below the panic call, trimmed
 	keep := []string{}
 	for _, l := range lines {
+		if strings.Contains(l, "harness") {
+			continue
+		}
 		if strings.Contains(l, "irismod/service") || strings.Contains(l, "/repo/") {
-			keep = append(keep, strings.TrimSpace(l))
+			l = strings.TrimSpace(l)
+			if i := strings.Index(l, "("); i > 0 && !strings.HasPrefix(l, "/") {
+				l = l[:i] + "()" // drop argument values (addresses differ between runs)
+			}
+			if i := strings.Index(l, " +0x"); i > 0 {
+				l = l[:i]
+			}
+			keep = append(keep, l)
 		}
 		if len(keep) >= 8 {
 			break
